@@ -200,3 +200,25 @@ def err_kind(exc: BaseException) -> str:
     if "IntegrityError" in mro or n == "IntegrityError":
         return "Integrity"
     return "OtherPy:" + n
+
+
+def warm_up(call, objs, retime=False):
+    """Call `call()` once on the very same Event objects while they hold OTHER durations (and data), then put the case's
+    values back: a transform that remembers something about the objects (or about their ids and timestamps) it has seen
+    must not let that leak into the next call. The outcome of the warm-up call is discarded."""
+    import copy
+    from datetime import timedelta
+
+    saved = [(o, o.duration, copy.deepcopy(o.data), o.timestamp, o.id) for o in objs]
+    for n, o in enumerate(objs):
+        o.duration = o.duration + timedelta(seconds=3 + n % 2)
+        o.data = dict(o.data, warm=n)
+    try:
+        call()
+    except Exception:  # noqa: BLE001 - discarded
+        pass
+    for o, d, da, ts, i in saved:
+        o.timestamp = ts
+        o.duration = d
+        o.data = da
+        o.id = i
